@@ -661,6 +661,40 @@ def check_default_t(prog, check, rule='C10.R5'):
     if n_true == 0:
         good = False
         why.append('the flag is never set when the user defines t')
+    # the name tested is the left-hand side as written: a name from which the initial-condition marker '(0)' has been removed
+    # would make the line `t(0) = ...` count as a definition of t
+    stripped = set()
+    grew = True
+    while grew:
+        grew = False
+        for n_ in ast.walk(f.node):
+            if isinstance(n_, ast.Assign) and len(n_.targets) == 1 and isinstance(n_.targets[0], ast.Name) and n_.targets[0].id not in stripped:
+                v_ = n_.value
+                marks = any(isinstance(c_, ast.Call) and call_name(c_) in ('replace', 'partition', 'split', 'rstrip', 'strip') and c_.args and
+                            isinstance(c_.args[0], ast.Constant) and c_.args[0].value == '(0)' for c_ in ast.walk(v_))
+                from_stripped = isinstance(v_, ast.Name) and v_.id in stripped
+                if marks or from_stripped:
+                    stripped.add(n_.targets[0].id)
+                    grew = True
+    for nd_ in g.nodes:
+        if nd_.kind not in ('test', 'stmt') or nd_.ast is None:
+            continue
+        for c_ in ast.walk(nd_.ast):
+            if isinstance(c_, ast.Compare) and len(c_.ops) == 1 and isinstance(c_.ops[0], (ast.In, ast.Eq)) and isinstance(c_.left, ast.Name) and \
+                    any(isinstance(k_, ast.Constant) and k_.value == 't' for k_ in ast.walk(c_.comparators[0])) and c_.left.id in stripped:
+                # does a marker-stripping definition of that name reach this test?
+                defs_ = [d_ for d_ in g.stmt_nodes() if d_.kind == 'stmt' and isinstance(d_.ast, ast.Assign) and
+                         any(isinstance(t_, ast.Name) and t_.id == c_.left.id for t_ in d_.ast.targets) and
+                         (any(isinstance(x_, ast.Call) and call_name(x_) in ('replace', 'partition', 'split') and x_.args and
+                              isinstance(x_.args[0], ast.Constant) and x_.args[0].value == '(0)' for x_ in ast.walk(d_.ast.value)) or
+                          (isinstance(d_.ast.value, ast.Name) and d_.ast.value.id in stripped))]
+                all_defs_ = {d2_.id for d2_ in g.stmt_nodes() if d2_.kind == 'stmt' and isinstance(d2_.ast, ast.Assign) and
+                             any(c_.left.id in target_names(t_) for t_ in d2_.ast.targets)} | \
+                            {h_.id for h_ in g.nodes if h_.kind == 'for' and c_.left.id in target_names(h_.ast.target)}
+                if any(nd_.id in g.reach([d_], avoid=all_defs_ - {d_.id}) for d_ in defs_):
+                    good = False
+                    why.append("the test `%s` (line %d) sees the name after the '(0)' marker was removed: an initial condition on t counts "
+                               "as the user's own definition of t and no time axis is generated" % (unparse(c_), c_.lineno))
     check.ob(rule, '%s::user-t-detected' % f.key, good, f.where,
              'flag starts False and is set only when the parsed variable is t' if good else '; '.join(why),
              'a block with / without a user-defined time variable')
